@@ -326,7 +326,7 @@ CPR = 'internal/transfer/controlproto.go'
 MUTANTS += [
  dict(id='C07-undo-F1-header', props=['C07'], expect='R-TAINT/source/readControlHeader',
       edits=[(CPR, '\tif err := validateManifest(m); err != nil {\n\t\treturn manifest.Manifest{}, err\n\t}\n\n\treturn m, nil', '\treturn m, nil')]),
- dict(id='C07-manifest-ids-unchecked', props=['C07'], expect='R-TAINT/source/validateManifest/item-id',
+ dict(id='C07-benign-manifest-ids-unchecked', props=['C07'], expect='SILENT',  # benign for C07 since F35: no path is built from an item id
       edits=[(MP, '\t\tif item.ID != "" {\n\t\t\tif err := validateFilename(item.ID); err != nil {\n\t\t\t\treturn fmt.Errorf("invalid manifest item id %q: %w", item.ID, err)\n\t\t\t}\n\t\t}\n', '')]),
  dict(id='C07-manifest-dirs-only-files', props=['C07'], expect='R-TAINT/source/validateManifest/item-path',
       edits=[(MP, '\t\tif err := validateRelPath(item.RelPath); err != nil {\n\t\t\treturn fmt.Errorf("invalid manifest path %q: %w", item.RelPath, err)\n\t\t}\n', '\t\tif !item.IsDir {\n\t\t\tif err := validateRelPath(item.RelPath); err != nil {\n\t\t\t\treturn fmt.Errorf("invalid manifest path %q: %w", item.RelPath, err)\n\t\t\t}\n\t\t}\n')]),
@@ -1282,4 +1282,36 @@ MUTANTS += [
       edits=[(HUB, '\th.mu.Lock()\n\tdefer h.mu.Unlock()\n\tcurrent := make([]Peer, 0, len(h.sessions[sessionID]))\n\tfor _, pc := range h.sessions[sessionID] {\n\t\tcurrent = append(current, pc.peer)\n\t}\n\tfn(current)\n', '\th.mu.Lock()\n\tcurrent := make([]Peer, 0, len(h.sessions[sessionID]))\n\tfor _, pc := range h.sessions[sessionID] {\n\t\tcurrent = append(current, pc.peer)\n\t}\n\th.mu.Unlock()\n\tfn(current)\n')]),
  dict(id='F70-benign-renamed-locals', props=['C14', 'C16', 'C10', 'C11'], expect='SILENT',
       edits=[(SRV, _F70_NEW, _F70_NEW.replace('senderStillConnected', 'hostLeft0').replace('current', 'left'))]),
+]
+
+MUTANTS += [
+ dict(id='R9-item-id-names-a-path-again-unchecked', props=['C07'], expect='R-TAINT/source/validateManifest/item-id',
+      edits=[(MP, '\t\tif item.ID != "" {\n\t\t\tif err := validateFilename(item.ID); err != nil {\n\t\t\t\treturn fmt.Errorf("invalid manifest item id %q: %w", item.ID, err)\n\t\t\t}\n\t\t}\n', ''),
+             (MS, '\t\t\t_ = os.Remove(SidecarPath(baseDir, "", sidecarIdentifier(item)))\n', '\t\t\t_ = os.Remove(SidecarPath(baseDir, "", item.ID))\n')]),
+]
+
+# --- F71, F72 (DESIGN 8.19) ---
+PT_TYPES = 'pkg/protocol/types.go'
+_NOTICE_GUARD_S = '\tif protocol.IsServerNotice(env.Type) && env.From != protocol.ServerPeerID {\n\t\ts.logger.Warn("ignoring a server notice that does not come from the server", "type", env.Type, "from", env.From)\n\t\treturn\n\t}\n'
+_NOTICE_GUARD_R = '\tif protocol.IsServerNotice(env.Type) && env.From != protocol.ServerPeerID {\n\t\tr.logger.Warn("ignoring a server notice that does not come from the server", "type", env.Type, "from", env.From)\n\t\treturn\n\t}\n'
+MUTANTS += [
+ dict(id='F71-undo-utf8-test', props=['C10'], expect='R-PEER-ID-FORM/peer-id-form/add#1/utf8',
+      edits=[(SRV, '\tif !utf8.ValidString(peerID) {\n\t\tsendError(w, http.StatusBadRequest, "peer_id is not valid UTF-8")\n\t\treturn\n\t}\n', '\t_ = utf8.ValidString\n')]),
+ dict(id='F71-utf8-test-logs-only', props=['C10'], expect='R-PEER-ID-FORM/peer-id-form/add#1/utf8',
+      edits=[(SRV, '\tif !utf8.ValidString(peerID) {\n\t\tsendError(w, http.StatusBadRequest, "peer_id is not valid UTF-8")\n\t\treturn\n\t}\n', '\tif !utf8.ValidString(peerID) {\n\t\tlogger.Warn("peer_id is not valid UTF-8")\n\t}\n')]),
+ dict(id='F72-undo-reserved-id', props=['C10'], expect='R-PEER-ID-FORM/peer-id-form/add#1/reserved',
+      edits=[(SRV, '\tif peerID == protocol.ServerPeerID {\n\t\tsendError(w, http.StatusBadRequest, "peer_id is reserved")\n\t\treturn\n\t}\n', '')]),
+ dict(id='F72-undo-host-ignores-forged-notices', props=['C12', 'C10'], expect='R-NOTICE-FROM-SERVER/notice-from-server/app.(*SnapshotSender).handleEnvelope/',
+      edits=[(SS, _NOTICE_GUARD_S, '')]),
+ dict(id='F72-undo-receiver-ignores-forged-notices', props=['C12', 'C10'], expect='R-NOTICE-FROM-SERVER/notice-from-server/app.(*snapshotReceiver).handleEnvelope/',
+      edits=[(SR, _NOTICE_GUARD_R, '')]),
+ dict(id='F72-peer-left-missing-from-the-list', props=['C12', 'C10'], expect='R-NOTICE-FROM-SERVER/notice-from-server/signed/',
+      edits=[(PT_TYPES, '\tcase TypePeerList, TypePeerJoined, TypePeerLeft, TypeTurnCredentials, TypeError:\n', '\tcase TypePeerList, TypePeerJoined, TypeTurnCredentials, TypeError:\n')]),
+ dict(id='F72-guard-warns-only', props=['C12'], expect='R-NOTICE-FROM-SERVER/notice-from-server/app.(*SnapshotSender).handleEnvelope/',
+      edits=[(SS, _NOTICE_GUARD_S, _NOTICE_GUARD_S.replace('\t\treturn\n', ''))]),
+ dict(id='F72-benign-guard-inside-the-clauses', props=['C12', 'C10'], expect='SILENT',
+      edits=[(SS, _NOTICE_GUARD_S, ''),
+             (SS, '\tcase protocol.TypeTurnCredentials:\n\t\tvar creds protocol.TurnCredentials\n\t\tif err := env.DecodePayload(&creds); err != nil {\n\t\t\ts.logger.Error("failed to decode turn_credentials"', '\tcase protocol.TypeTurnCredentials:\n\t\tif env.From != protocol.ServerPeerID {\n\t\t\treturn\n\t\t}\n\t\tvar creds protocol.TurnCredentials\n\t\tif err := env.DecodePayload(&creds); err != nil {\n\t\t\ts.logger.Error("failed to decode turn_credentials"'),
+             (SS, '\tcase protocol.TypePeerJoined:\n\t\tvar peerJoined protocol.PeerJoined\n', '\tcase protocol.TypePeerJoined:\n\t\tif env.From != "server" {\n\t\t\treturn\n\t\t}\n\t\tvar peerJoined protocol.PeerJoined\n'),
+             (SS, '\tcase protocol.TypePeerLeft:\n\t\tvar peerLeft protocol.PeerLeft\n\t\tif err := env.DecodePayload(&peerLeft); err != nil {\n\t\t\ts.logger.Error("failed to decode peer_left"', '\tcase protocol.TypePeerLeft:\n\t\tif env.From != protocol.ServerPeerID {\n\t\t\treturn\n\t\t}\n\t\tvar peerLeft protocol.PeerLeft\n\t\tif err := env.DecodePayload(&peerLeft); err != nil {\n\t\t\ts.logger.Error("failed to decode peer_left"')]),
 ]
